@@ -61,7 +61,7 @@ _REQUIRED = (["kind:" + k for k in _KINDS]
                 "qn-none", "qn-one", "qn-two", "complex-state", "complex-with-real", "add:coeffs-differ", "bond-dim-1",
                 "partial-operator", "charged-operator", "child-permutation", "post:canonicalised", "from_mps",
                 "aux-space-partial-operator", "one-node-tree", "op:add", "op:scale", "op:apply", "op:canonicalise", "op:compress",
-                "op:centre-walk", "op:norm", "op:expectation", "op:rdm-site", "op:rdm-dof", "op:entropy", "op:mutual-info",
+                "op:centre-walk", "op:norm", "op:expectation", "expectation1", "op:rdm-site", "op:rdm-dof", "op:entropy", "op:mutual-info",
                 "op:bond-entropy", "op:normalize", "op:copy"])
 
 
@@ -610,6 +610,15 @@ def obs_expectation(ctx, world, a, ops):
             ctx.count("child_order")
             ctx.check(abs(complex(gotm) - complex(got)) <= TOL * scale + 2e-8 * (not isinstance(got, complex) or not isinstance(gotm, complex)),
                       f"child-order|{what}-differs", got=complex(got), mirror=complex(gotm), scale=scale)
+    if how == "ttno" and not o.partial and rng.random() < 0.3:
+        # the direct whole-network contraction kept next to it (it also takes a bra)
+        ok1, got1 = call(ctx, world, "expectation1", t.expectation1, o.o)
+        if ok1:
+            ctx.count("oracle")
+            ctx.cls("expectation1")
+            e1 = abs(complex(got1) - complex(want))
+            ctx.check(e1 <= TOL * scale + (0.0 if isinstance(got1, complex) else 1e-8), "expectation1|differs-from-dense",
+                      got=complex(got1), want=complex(want), scale=scale, gauge=gauge, operator=o.desc)
     compare(ctx, world, a, "expectation|operand-changed")
     for n_, r_ in ((t.root, "state"), (o.o.root, "operator")):
         ctx.check(n_.parent is None, f"expectation|leaves-{r_}-root-attached")
